@@ -98,16 +98,25 @@ def r10_2(ctx, R, ms):
         # provenance of the pushed value
         for pbb, how in m.pushes.items():
             t = b.term(pbb)
-            v = fl.operand_expr(t["args"][-1])
             ups = set(m.up_sites)
-            from_item = False
-            # direct: payload of the upstream poll (possibly through `?`)
-            calls = expr_calls(v)
-            if any(c[3] in ups for c in calls):
-                from_item = v[0] == "proj" and "@Some" in v[2]
+
+            def is_item(v):
+                # direct: payload of the upstream poll (possibly through `?`)
+                calls = expr_calls(v)
+                if not any(c[3] in ups for c in calls):
+                    return False
                 if v[0] == "call" and re.search(r"FnMut::call_mut$", v[1] or ""):
                     arg = v[2][1]
-                    from_item = any(c[3] in ups for c in expr_calls(arg)) and "@Some" in repr(arg)
+                    return any(c[3] in ups for c in expr_calls(arg)) and "@Some" in repr(arg)
+                return v[0] == "proj" and "@Some" in v[2]
+            v = fl.operand_expr(t["args"][-1])
+            from_item = is_item(v)
+            if not from_item:
+                # the value may reach the push through a join (the poll wrapped in a helper with an early return): decide on
+                # every feasible path
+                vs = m.path_exprs(pbb, t["args"][-1])
+                from_item = bool(vs) and all(is_item(x) for x in vs)
+                v = vs[0] if vs else v
             ctx.ob("R10.2", b, "pushed-value-is-the-pulled-item@%s" % _site_label(b, pbb), from_item, b.loc(pbb), expr_str(v))
         lds = live_drops(ctx, b, lambda t: t["k"] == "alias" and re.search(r"Stream::Item$|TryStream::Ok$", t["name"]) is not None)
         ctx.ob("R10.2", b, "no-live-drop-of-upstream-item", not lds, d_loc(b), "; ".join(place_str(p) for _, p, _ in lds if p))
